@@ -44,6 +44,18 @@ def cases(tier, seed):
         s["t"] = "objhist"
         s["seed"] = R.randrange(1 << 30)
         out.append(s)
+    # the same questions asked of an interpreter started in optimised mode (python -O: `assert` statements and
+    # `if __debug__:` blocks vanish) - a configuration, not an input
+    for i in range(48 if tier == "quick" else 400):
+        s = gens.gen_pyramid(R, maxdepth=4, mindepth=2, kinds=("filtered", "filtered", "bbox", "toast", "generic"))
+        s["t"] = "pyr" if i % 3 else "objhist"
+        if s["t"] == "objhist":
+            s = gens.gen_pyramid(R, maxdepth=4, mindepth=1, kinds=("filtered", "filtered", "bbox", "toast", "generic"), sub_p=0)
+            s["t"] = "objhist"
+        s["par"] = i % 6 == 1
+        s["seed"] = R.randrange(1 << 30)
+        s["_env"] = {"PYTHONOPTIMIZE": "1"}
+        out.append(s)
     # directed corner cases
     for d in (0, 1, 2, 3):
         for kind in ("generic", "toast"):
